@@ -564,12 +564,28 @@ impl<'r> Grammar<'r> {
             }
             12 => {
                 self.km("raise", m);
-                self.t("Exception");
-                self.t(".");
-                self.t("Create");
-                self.t("(");
-                self.t("'boom'");
-                self.t(")");
+                match self.rng.below(4) {
+                    0 => {} // bare re-raise
+                    1 => {
+                        let i = self.ident();
+                        self.t(&i);
+                    }
+                    2 => {
+                        let i = self.ident();
+                        self.t(&i);
+                        self.k("at");
+                        let j = self.ident();
+                        self.t(&j);
+                    }
+                    _ => {
+                        self.t("Exception");
+                        self.t(".");
+                        self.t("Create");
+                        self.t("(");
+                        self.t("'boom'");
+                        self.t(")");
+                    }
+                }
             }
             13 => {
                 self.km("inherited", m);
@@ -653,6 +669,28 @@ impl<'r> Grammar<'r> {
             }
             self.stmt(depth);
             self.t(";");
+        }
+        // the last statement of a list may go without its `;` (a simple statement, so that a following `else` of an
+        // enclosing construct cannot attach to it): `... raise end`, `... Foo until Done`
+        if self.rng.chance(1, 7) {
+            match self.rng.below(4) {
+                0 => self.km("raise", Mark::Start(depth)),
+                1 => {
+                    self.km("inherited", Mark::Start(depth));
+                }
+                2 => {
+                    let i = self.ident();
+                    self.tm(&i, Mark::Start(depth));
+                    self.t(":=");
+                    self.primary(depth, 2);
+                }
+                _ => {
+                    let i = self.ident();
+                    self.tm(&i, Mark::Start(depth));
+                    self.t("(");
+                    self.t(")");
+                }
+            }
         }
     }
 
